@@ -56,3 +56,20 @@ Theorem C04_pipelined_requests : forall cb g (rs : list wr_request) (chunks : li
   c_conn_flags (fst (cp_run cb g connp_new (OpOpen :: map OpReqData chunks))) = (if (2 <=? length rs)%nat then c_HTP_CONN_PIPELINED else 0%N).
 Proof. exact sg_pipeline_fidelity. Qed.
 Print Assumptions C04_pipelined_requests.
+
+(* ---- history level, both directions: n exchanges of the wire grammar (request with a known method; response with status line, header fields in any
+        folding, Content-Length body). ALL requests first, in ANY chunking of their concatenation, then ALL responses, in ANY chunking of THEIR
+        concatenation (chunks span message boundaries on both sides): exactly n transactions, and the i-th reports request i AND response i
+        (protocol, status, reason, header table, entity and message length, progress COMPLETE). The only premise beyond grammar and limits excludes
+        exactly the chunkings on which the listed LF-CR finding F1 changes the parse (a response body starting with CR). ---- *)
+Require Import Htp.Proof.PSegRes Htp.Proof.PSegResRun Htp.Proof.PSegResThm Htp.Proof.PSegResCanon.
+Require Import Htp.Proof.PPair Htp.Proof.PPairThm Htp.Proof.PPairB Htp.Proof.PPairThmB.
+Theorem C04_pairing_under_pipelining : forall cb g (xl : list pp_xc) (qchunks schunks : list bytes),
+  wr_all_ok cb -> g_allow_space_uri g = false -> g_tx_auto_destroy g = false -> (g_max_tx g = 0 \/ length xl < g_max_tx g)%nat ->
+  forallb (pp_xc_ok g) xl = true -> Forall pp_plain xl ->
+  Forall (fun c => c <> []) qchunks -> concat qchunks = concat (map (fun x => wr_request_wire (xq x)) xl) ->
+  Forall (fun c => c <> []) schunks -> concat schunks = concat (map pp_xwire xl) -> pp_f1_free xl schunks = true ->
+  Forall2 (fun slot x => exists t, slot = Some t /\ wr_reported (sg_mask t) (xq x) /\ sr_reported t (xs x) (xbody x))
+          (c_txs (fst (cp_run cb g connp_new (OpOpen :: map OpReqData qchunks ++ map OpResData schunks)))) xl.
+Proof. exact pp_pairing_chunked_reported. Qed.
+Print Assumptions C04_pairing_under_pipelining.
